@@ -38,6 +38,8 @@ type FnDecl struct {
 	Once    bool
 	Built   bool // assembled with BuildFunc from two value sets (struct in, struct out, error)
 	Ident   bool // identity body (returns its arguments, records nothing): the twin of Convert
+	SameSet bool // (Built) ONE value set object is both the input and the output set
+	ShareIn int  // >0 (Built): the input value set is the very set object Funcs[ShareIn-1].Input() returns
 	// materialised
 	ftype int
 	fn    *am.Func
@@ -181,6 +183,9 @@ func (rt *runtimeT) errOf(e int) error {
 	case 904:
 		// a converter that forwards the unsatisfied-argument error of a nested Call
 		x = &am.ErrArgumentUnsatisfied{}
+	case 905:
+		// ... or reports it with context (wrapped)
+		x = fmt.Errorf("nested call: %w", &am.ErrArgumentUnsatisfied{})
 	default:
 		x = fmt.Errorf("scenario error %d", e)
 	}
@@ -197,6 +202,9 @@ func structOf(fields []Field) reflect.Type {
 		}
 		if f.Name == "" {
 			tag = ",typeOnly"
+			if (i+len(fields))%3 == 1 {
+				tag = "zz,typeOnly" // typeOnly wins over a name given in the same tag
+			}
 		}
 		if f.Sub != "" {
 			tag += ",subtype=" + f.Sub
@@ -254,9 +262,21 @@ func valueSetOf(fs []Field) (*am.ValueSet, error) {
 	return am.NewValueSet(vs)
 }
 
-func setPtr(set *am.ValueSet, f Field) *am.Value {
+func setPtr(set *am.ValueSet, f Field, all []Field) *am.Value {
 	if f.Name != "" {
 		return set.Named(f.Name)
+	}
+	// Typed(t) finds THE type-only value of a type; when several type-only values share the
+	// type they are told apart by subtype (TypedSubtype returns the first value, named ones
+	// included, with that type and subtype -- so it is only used when needed)
+	n := 0
+	for _, g := range all {
+		if g.Name == "" && g.Ty == f.Ty {
+			n++
+		}
+	}
+	if n > 1 {
+		return set.TypedSubtype(tyOf[f.Ty], f.Sub)
 	}
 	return set.Typed(tyOf[f.Ty])
 }
@@ -268,9 +288,16 @@ func (rt *runtimeT) materialiseBuilt(d *FnDecl) error {
 	if err != nil {
 		return err
 	}
+	if d.ShareIn > 0 && rt.sc.Funcs[d.ShareIn-1].fn != nil {
+		// a wrapper built from another function's own input set (shared object)
+		in = rt.sc.Funcs[d.ShareIn-1].fn.Input()
+	}
 	out, err := valueSetOf(d.Out)
 	if err != nil {
 		return err
+	}
+	if d.SameSet {
+		out = in
 	}
 	if len(d.Out) == 0 {
 		out = nil // no results: BuildFunc(in, nil, cb); an EMPTY input list stays an explicit zero-length set
@@ -280,7 +307,7 @@ func (rt *runtimeT) materialiseBuilt(d *FnDecl) error {
 		n := rt.nexec
 		var argIDs, outIDs []string
 		for _, f := range d.In {
-			argIDs = append(argIDs, fmt.Sprintf("(mkV %s %s)", z(serialOf(setPtr(i, f).Value)), z(f.Ty)))
+			argIDs = append(argIDs, fmt.Sprintf("(mkV %s %s)", z(serialOf(setPtr(i, f, d.In).Value)), z(f.Ty)))
 		}
 		kind, e := rt.behOf(d.ID, n)
 		if kind == 2 {
@@ -290,12 +317,12 @@ func (rt *runtimeT) materialiseBuilt(d *FnDecl) error {
 			s := 1000*n + k + 1
 			if kind != 0 {
 				s = 0
-				setPtr(o, f).Value = reflect.Zero(tyOf[f.Ty])
+				setPtr(o, f, d.Out).Value = reflect.Zero(tyOf[f.Ty])
 			} else if c, ok := carrier[f.Ty]; ok && (n+k)%2 == 0 {
 				// the way a callback naturally fills an interface-typed output
-				setPtr(o, f).Value = mkVal(c, s)
+				setPtr(o, f, d.Out).Value = mkVal(c, s)
 			} else {
-				setPtr(o, f).Value = mkFieldVal(f.Ty, s)
+				setPtr(o, f, d.Out).Value = mkFieldVal(f.Ty, s)
 			}
 			outIDs = append(outIDs, fmt.Sprintf("(mkV %s %s)", z(s), z(f.Ty)))
 		}
@@ -447,6 +474,9 @@ func (rt *runtimeT) fltOf(f *Flt) am.FilterFunc {
 }
 
 func fltTerm(f *Flt) string {
+	if f == nil {
+		return "(FltAnd [])" // no filter: everything is permitted
+	}
 	switch f.Kind {
 	case 0:
 		return fmt.Sprintf("(FltType %s)", z(f.Ty))
@@ -547,7 +577,11 @@ func (rt *runtimeT) goOpts(opts []Opt) []am.Arg {
 			}
 			out = append(out, am.ConverterGen(gs...))
 		case "filterin":
-			out = append(out, am.FilterInput(rt.fltOf(o.Flt)))
+			if o.Flt == nil {
+				out = append(out, am.FilterInput(nil)) // documented: replaces (removes) an earlier filter
+			} else {
+				out = append(out, am.FilterInput(rt.fltOf(o.Flt)))
+			}
 		case "filterout":
 			out = append(out, am.FilterOutput(rt.fltOf(o.Flt)))
 		case "nil":
@@ -715,7 +749,8 @@ func (rt *runtimeT) classify(err error, targetRan bool) string {
 		return ""
 	}
 	for e, x := range rt.errs {
-		if _, isUA := x.(*am.ErrArgumentUnsatisfied); isUA && err == x {
+		var inner *am.ErrArgumentUnsatisfied
+		if errors.As(x, &inner) && err == x {
 			return fmt.Sprintf("(ObsErrId %s)", z(e)) // the converter's own error value, verbatim
 		}
 	}
@@ -799,6 +834,9 @@ func rawOutTerm(v reflect.Value) string {
 	ptr := false
 	for v.Kind() == reflect.Ptr {
 		if v.IsNil() {
+			if v.Type().Elem().Kind() != reflect.Struct {
+				return "[0]" // a nil pointer VALUE of the universe (*T0), not a nil *struct result
+			}
 			return "[(-1)]"
 		}
 		v = v.Elem()
